@@ -10,7 +10,7 @@
  * over address lists of 0..3 addresses x 7 behaviours with/without timeout;
  * accept answers {fd, EAGAIN, ECONNABORTED, EINTR, EMFILE}.
  * Bound: op_bound program steps, dev deviations.  Oracle: see check_* below.
- * Not covered: bind addresses (network_connect_bind), allocation failure (C14).
+ * Not covered: allocation failure (C14).
  */
 #include <sys/socket.h>
 #include <sys/time.h>
@@ -220,7 +220,7 @@ rw_blocked(void)
 }
 
 /* ---------------- connect ---------------- */
-static int naddr, behav[3], use_timeo;
+static int naddr, behav[3], use_timeo, use_bind;
 static struct sock_addr sa_store[3]; static struct sockaddr_in sin_store[3]; static struct sock_addr * sas[4];
 static int conn_result, conn_cancelled;
 
@@ -255,7 +255,7 @@ conn_state(int where, int extra)
 {
 	uint8_t b[1500]; size_t n = 0;
 	b[n++] = (uint8_t)where; b[n++] = (uint8_t)extra; b[n++] = (uint8_t)naddr; b[n++] = (uint8_t)behav[0]; b[n++] = (uint8_t)behav[1]; b[n++] = (uint8_t)behav[2];
-	b[n++] = (uint8_t)use_timeo; b[n++] = (uint8_t)ops; b[n++] = (uint8_t)active; b[n++] = (uint8_t)callbacks; b[n++] = (uint8_t)(conn_result + 1); b[n++] = (uint8_t)conn_cancelled;
+	b[n++] = (uint8_t)(use_timeo | (use_bind << 1)); b[n++] = (uint8_t)ops; b[n++] = (uint8_t)active; b[n++] = (uint8_t)callbacks; b[n++] = (uint8_t)(conn_result + 1); b[n++] = (uint8_t)conn_cancelled;
 	n += evdump(b + n, 600, fk_now_us);
 	n += fk_canon(b + n, 500);
 	mc_state(b, n);
@@ -298,9 +298,13 @@ conn_body(void)
 		sas[i] = &sa_store[i];
 	}
 	sas[naddr] = NULL;
-	use_timeo = mc_pick(2, "timeout");
-	if (mc_noting()) { static const char * bn[] = {"socket-fails", "refused", "async-fail", "silent", "async-ok", "immediate", "eintr-then-ok"}; for (i = 0; i < naddr; i++) mc_note("address %d: %s", i, bn[behav[i]]); mc_note("timeout %s", use_timeo ? "5 ms per address" : "none"); }
-	if (use_timeo) cookie = network_connect_timeo(sas, &tv, connect_callback, NULL); else cookie = network_connect(sas, connect_callback, NULL);
+	use_timeo = mc_pick(3, "timeout");	/* 0 plain, 1 per-address timeout, 2 bind to a local address first */
+	use_bind = (use_timeo == 2); if (use_bind) use_timeo = 0;
+	fk_expect_bind = use_bind;
+	if (mc_noting()) { static const char * bn[] = {"socket-fails", "refused", "async-fail", "silent", "async-ok", "immediate", "eintr-then-ok"}; for (i = 0; i < naddr; i++) mc_note("address %d: %s", i, bn[behav[i]]); mc_note("timeout %s%s", use_timeo ? "5 ms per address" : "none", use_bind ? ", bound to a local address" : ""); }
+	if (use_timeo) cookie = network_connect_timeo(sas, &tv, connect_callback, NULL);
+	else if (use_bind) { static struct sock_addr sab; static struct sockaddr_in sinb; memset(&sinb, 0, sizeof(sinb)); sinb.sin_family = AF_INET; sinb.sin_port = htons(4000); sab.ai_family = AF_INET; sab.ai_socktype = SOCK_STREAM; sab.name = (struct sockaddr *)&sinb; sab.namelen = sizeof(sinb); cookie = network_connect_bind(sas, &sab, connect_callback, NULL); }
+	else cookie = network_connect(sas, connect_callback, NULL);
 	if (cookie == NULL) { FAIL("register", "network_connect returned NULL"); return; }
 	active = 1;
 	for (;;) {
@@ -502,6 +506,7 @@ teardown(void)
 		else if (sub == 2) network_connect_cancel(cookie); else if (sub == 3) network_accept_cancel(cookie);
 	}
 	active = 0; cookie = NULL;
+	fk_expect_bind = 0;
 	if (sub == 4) { int f, d; for (f = 0; f < 2; f++) for (d = 0; d < 2; d++) if (DQ[f][d].active) { if (d == 0) network_read_cancel(DQ[f][d].ck); else network_write_cancel(DQ[f][d].ck); DQ[f][d].active = 0; } fk_allow_hup = 0; }
 	if (timer_armed && timer_cookie != NULL) events_timer_cancel(timer_cookie);
 	timer_armed = 0; timer_cookie = NULL;
